@@ -669,6 +669,11 @@ func corpusC10() []*Bundle {
 					casefmt.Op{Doc: 0, Vars: -1, Query: q}, c10FollowUp(nil))
 				if strings.Contains(on, "fid(") {
 					c.Stubs.Faults = []casefmt.Fault{{ID: 1, K: 1, Kind: "error"}, {ID: 1, K: 2, Kind: "panic"}, {ID: 1, K: 3, Kind: "error"}}
+					if si >= 3 {
+						// the workers fail in different ways: a returned error, a panic with a string, a panic with an error
+						// (failures of different Go types arrive at whatever collects them)
+						c.Stubs.Faults = []casefmt.Fault{{ID: 1, K: 1, Kind: "error"}, {ID: 1, K: 2, Kind: "panic_str"}, {ID: 1, K: 3, Kind: "panic"}}
+					}
 					c.Stubs.Lat = []casefmt.LatRule{{ID: 1, Call: -1, Ns: 1000000}}
 				}
 				out = append(out, &Bundle{Prop: "C10", Kind: "named", Case: c, Expect: mustJSON(c10Expect{Kind: "named", Query: q, Race: true}), Tags: []string{"corpus", "kind:named_pjoin_all_fail"}})
